@@ -73,7 +73,7 @@ func (d Doc) PBF() []byte {
 		var grp []byte
 		switch e.Kind {
 		case 'n':
-			lat := 5.0 + float64(e.ID)
+			lat := outsideCoord(e.ID)
 			if e.Inside {
 				lat = 0
 			}
@@ -123,3 +123,7 @@ func (d Doc) PBF() []byte {
 	}
 	return out
 }
+
+// outsideCoord is the latitude = longitude of a node outside the KeepBounds
+// box: a small value derived from the id, whatever the size of the id.
+func outsideCoord(id int64) float64 { return 5 + float64(((id%7)+7)%7) }
